@@ -11,7 +11,7 @@
                        every caller-owned buffer and of every slice the allocator has handed out
      static_ok h c sb  block sb is the Go runtime's read-only table of one-byte strings *)
 From GV Require Import Lib.Bytes Lib.Res Lib.Heap Gen.Consts Model.Binary Model.BufReader Model.Span Spec.Indep
-     Proofs.SpanHeap Proofs.SpanP Proofs.SpanThm Proofs.SpanEx.
+     Proofs.SpanHeap Proofs.SpanP Proofs.SpanThm Proofs.SpanHist Proofs.SpanEx.
 Open Scope N_scope.
 
 (* the constants of the Go sources the proofs rely on (regenerated on every run) *)
@@ -162,6 +162,30 @@ Theorem C16_stream_fresh : forall h st dirt st' h' b e,
     take (len bs) (slice_bytes h' b) = bs.
 Proof. exact stream_read_binary_spec. Qed.
 
+(* ---------- whole histories (Proofs/SpanHist.v) ----------
+   A history is any interleaving of decodes (ReadBinary / ReadString, either setting, any oracle
+   choices, from any valid input slice), caller writes into caller-owned buffers, writes through
+   returned []byte values and appends to them ([hstep]).  The state records for every caller
+   buffer and every returned value the bytes it holds.  [good]: the allocator invariant holds,
+   the heap agrees with every record, returned values are pairwise independent (disjoint
+   regions, or both immutable one-byte strings out of the runtime's read-only table) and
+   disjoint from every caller buffer.  Every step keeps [good], and changes the record of no
+   returned value except the one it writes through — so over any history no value is ever
+   altered by mutating inputs, by decoding more, or by writing through / appending to others. *)
+Theorem C16_history_step : forall sb s s', good sb s -> hstep sb s s' -> good sb s'.
+Proof. exact hstep_good. Qed.
+
+Theorem C16_history : forall sb s s', good sb s -> reach sb s s' -> good sb s'.
+Proof. exact reach_good. Qed.
+
+Theorem C16_history_keeps : forall sb s s',
+  hstep sb s s' ->
+  forall j lv, nth_error (hs_lvs s) j = Some lv ->
+    (exists k, nth_error (hs_lvs s') k = Some lv) \/
+    (exists o w, lv_str lv = false /\ o + len w <= lv_len lv /\
+       hs_h s' = write (hs_h s) (r_blk (lv_reg lv), r_off (lv_reg lv) + o) w).
+Proof. exact hstep_keeps. Qed.
+
 (* ---------- non-vacuity (a small allocator with 300-byte spans; Proofs/SpanEx.v) ---------- *)
 (* the hypothesis set of the ReadBinary / ReadString theorems is satisfiable ... *)
 Example C16_hypotheses_satisfiable :
@@ -198,3 +222,8 @@ Example C16_stream_example :
                                               schunks := [2; 1]; spos := 0 |}) [5; 5; 5; 5]
       = (st', Ok (h', b, None)) /\ slice_bytes h' b = [9; 8; 7] /\ sptr b = Some (1%nat, 0).
 Proof. exact ex_stream. Qed.
+
+(* a good initial state of a history, and a step from it *)
+Example C16_history_nonvacuous :
+  good 0 ex_state /\ exists s', hstep 0 ex_state s' /\ length (hs_lvs s') = 1%nat.
+Proof. exact (conj ex_good ex_step). Qed.
